@@ -2,6 +2,7 @@
    A functional model cannot exhibit aliasing; what is proved is the part that is logic:
    the decoders are the canonical programs (C01_all_canonical), whose language has no aliasing or
    input-writing statement form, and every slice they fill is freshly allocated by the same step. *)
+From NV Require C19.Globals.
 From NV Require Codec.Stmt Codec.StmtProofs.
 From NV Require Import Lib.Base Lib.BV Codec.Lang Codec.Def Codec.Sem Codec.Purity Codec.Final
   C09.Types C09.Check C09.All C19.Globals Gen.GenMsgs Gen.GenTypes.
@@ -44,6 +45,14 @@ Theorem C10_programs_append_only : forall names shape_of m l out,
   Stmt.exec_enc_top names shape_of m l out = (b <- Stmt.exec_enc_top names shape_of m l []%list ;; Ok (out ++ b)%list).
 Proof. exact StmtProofs.exec_enc_appends. Qed.
 
+(* the functions this property is about are functions of their arguments: the files it is anchored in declare
+   no package-level variable other than the pinned read-only tables (or a never-touched one of plain type) and
+   none of their functions writes, slices, takes the address of, passes on or calls a method of a
+   package-level variable (logger entries excepted) -- evaluated on the current source (C19/Globals.v) *)
+Theorem C10_anchor_files_keep_no_state :
+  Globals.hidden_state_free Globals.anchors_C10 = true.
+Proof. vm_compute. reflexivity. Qed.
+
 Print Assumptions C10_all_canonical.
 Print Assumptions C10_buffers_fresh.
 Print Assumptions C10_setlens_allocate.
@@ -51,3 +60,4 @@ Print Assumptions C10_setlen_alloc_meaning.
 Print Assumptions C10_encode_appends.
 Print Assumptions C10_codec_imports_pure.
 Print Assumptions C10_programs_append_only.
+Print Assumptions C10_anchor_files_keep_no_state.
